@@ -162,12 +162,33 @@ def extract_block(fdef, c, seg):
                 pass
     if hit is None:
         raise LookupError(f"block anchor {anchor!r} not found in {c.name}")
+    stmts = [hit]
+    until = c.block.get("until")
+    if until:
+        # a run of consecutive statements: from the anchored one up to (not including) the one starting with `until`
+        body = None
+        for n in ast.walk(fdef):
+            for fld in ("body", "orelse", "finalbody"):
+                lst = getattr(n, fld, None)
+                if isinstance(lst, list) and hit in lst:
+                    body = lst
+        if body is None:
+            raise LookupError(f"block anchor {anchor!r}: enclosing statement list not found")
+        i0 = body.index(hit)
+        stmts, end = [], None
+        for st_ in body[i0:]:
+            if ast.unparse(st_).lstrip().startswith(until):
+                end = st_
+                break
+            stmts.append(st_)
+        if end is None:
+            raise LookupError(f"block end {until!r} not found after {anchor!r} in {c.name}")
     args = ast.arguments(posonlyargs=[], args=[ast.arg(arg=a) for a in c.params], vararg=None, kwonlyargs=[],
                          kw_defaults=[], kwarg=None, defaults=[])
-    f2 = ast.FunctionDef(name=fdef.name + "__block", args=args, body=[hit], decorator_list=[], returns=None,
-                         lineno=hit.lineno, col_offset=0, end_lineno=hit.end_lineno, end_col_offset=0, type_params=[])
+    f2 = ast.FunctionDef(name=fdef.name + "__block", args=args, body=stmts, decorator_list=[], returns=None,
+                         lineno=hit.lineno, col_offset=0, end_lineno=stmts[-1].end_lineno, end_col_offset=0, type_params=[])
     ast.fix_missing_locations(f2)
-    return f2, ast.unparse(hit)
+    return f2, "\n".join(ast.unparse(x) for x in stmts)
 
 
 # ------------------------------------------------------------------------------------------------
